@@ -58,7 +58,7 @@ IsOnOk(r) == r.res = E2B!IsOnCurve(Cv(r), PNorm(r.x), PNorm(r.y))
 HasseOk(q, c, m) == Leq(Sqr(AbsDiff(Mul(q, OfInt(c)), Add(PowerOf2(m), One))), PowerOf2(m + 2))
 GroupOk(r) ==
   LET e == Cv(r)  q == Norm(From16(r.q))
-  IN /\ r.valid = (E2B!IsNonSingular(e) /\ PIsIrred(e.f.F))
+  IN /\ ("valid" \in DOMAIN r) => (r.valid = (E2B!IsNonSingular(e) /\ PIsIrred(e.f.F)))      \* logged for the genuine order only
      /\ r.ison = E2B!IsPoint(e, Pt(r.P))
      /\ r.seems = (r.ison /\ ~IsZero(q) /\ r.cof > 0 /\ HasseOk(q, r.cof, e.f.m))
 MulOk(r) ==
